@@ -1,7 +1,7 @@
 (* Props/C09.v -- "Image encode/decode is stable and self-identifying".  Statements only.
    Models: Img/Codec.v.  WOZ/IMD/TD0/2MG whole-file parse-print is tied by the implementation-side codec oracle
    (to_bytes -> from_bytes -> to_bytes, independent CRC recomputation); the pieces below are proved. *)
-From A2 Require Import Base.Bytes Gen.Tables Img.Codec Img.CodecProofs.
+From A2 Require Import Base.Bytes Gen.Tables Img.Codec Img.CodecProofs Sys.Parsers Sys.ParsersProofs.
 Open Scope N_scope.
 
 (* the WOZ CRC table regenerated from woz.rs is the reflected CRC-32 table, entry by entry *)
@@ -37,3 +37,13 @@ Theorem c09_dot2mg_offsets : forall hdr data comment creator,
   /\ lenN b = 64 + lenN data + lenN comment + lenN creator.
 Proof. exact dot2mg_offsets_ok. Qed.
 Print Assumptions c09_dot2mg_offsets.
+
+(* WOZ container: the chunk walk of from_bytes finds exactly the chunks that to_bytes lays out (id, size, data one after
+   the other behind the 12 byte header), each at its offset with its length, for every list of chunks *)
+Theorem c09_woz_chunks_read_back : forall cs pre,
+  cs <> [] -> lenN pre <> 0 ->
+  Forall (fun c => known_id (fst c) = true /\ fst c < 4294967296 /\ lenN (snd c) < 4294967296) cs ->
+  forall fuel, (length cs < fuel)%nat ->
+  woz_walk fuel (lenN pre) (pre ++ woz_body cs) = ROk (expect (lenN pre) cs).
+Proof. exact woz_walk_print. Qed.
+Print Assumptions c09_woz_chunks_read_back.
